@@ -173,6 +173,7 @@ class Run:
         out['straggler'] = box.get('result')
         out['late_invoked'] = 'late_invoked' in log
         out['failure'] = None if s.failure is None else type(s.failure).__name__ + ':' + str(s.failure)[:80]
+        out['audit'] = sorted(set(sched.AUDIT))
         out['before'] = before
         out['after'] = self.tree()
         return s, out
@@ -207,6 +208,8 @@ def judge(K, mode, M, o, attach):
         return [('fence.' + ('deadlock' if o['failure'].startswith('Deadlock') else 'harness'), {'K': K, 'M': M})]
     st = o['straggler']
     facts = {'builder': K, 'method': M, 'owner': mode}
+    if o.get('audit'):
+        out.append(('fence.appended_to_closed_record', dict(facts, what=o['audit'][0])))
     if st is None:
         return [('fence.harness', {'K': K, 'M': M, 'why': 'straggler never ran'})]
     if st[0] not in ('ok', 'RuntimeError'):
